@@ -138,3 +138,12 @@ func RefSetKey(m protoreflect.Message, fd protoreflect.FieldDescriptor, secs boo
 	sort.Strings(es)
 	return "S[" + strings.Join(es, ",") + "]"
 }
+
+// RefKeyOrdered renders a message for failure messages (order preserved: protobuf text form, compacted).
+func RefKeyOrdered(m proto.Message, _ string) string {
+	s := fmt.Sprintf("%v", m)
+	if len(s) > 1500 {
+		s = s[:1500] + "…"
+	}
+	return s
+}
